@@ -32,6 +32,14 @@ EXTRA = [
     '<ky><xsl:for-each select="//*"><xsl:value-of select="count(key(\'ev\', .))"/>.</xsl:for-each></ky>',
     # number -> string conversion of non-integral doubles (value-of, AVT, string()): any static scratch buffer would be shared
     '<nv><xsl:for-each select="//*"><v a="{(count(preceding::*) + 1) div 7}"><xsl:value-of select="count(ancestor::*) div 3 + 0.1"/>;<xsl:value-of select="string(1 div (count(*) + 3))"/></v></xsl:for-each></nv>',
+    # two sorts of one stylesheet that differ only in case-order, over keys that differ only in case: a collator (or any comparison state)
+    # shared between threads that are in different phases orders one of them wrongly
+    '<co><xsl:for-each select="//*"><xsl:sort select="substring(\'aAbBaA\', count(preceding::*) mod 6 + 1, 1)" case-order="upper-first"/>'
+    '<xsl:value-of select="substring(\'aAbBaA\', count(preceding::*) mod 6 + 1, 1)"/></xsl:for-each>|<xsl:for-each select="//*">'
+    '<xsl:sort select="substring(\'aAbBaA\', count(preceding::*) mod 6 + 1, 1)" case-order="lower-first"/>'
+    '<xsl:value-of select="substring(\'aAbBaA\', count(preceding::*) mod 6 + 1, 1)"/></xsl:for-each>|<xsl:for-each select="//*">'
+    '<xsl:sort select="substring(\'aAbBaA\', count(preceding::*) mod 6 + 1, 1)" case-order="upper-first" order="descending"/>'
+    '<xsl:value-of select="substring(\'aAbBaA\', count(preceding::*) mod 6 + 1, 1)"/></xsl:for-each></co>',
 ]
 POOL = c13.OBSERVERS + EXTRA
 D2 = '<r xmlns:q="urn:q"><b i="1"/><b i="2" q:j="x">t</b><b i="3"/><!--c--></r>'
@@ -110,6 +118,8 @@ def check(ctx, case):
         xsl = stylesheet(case)
     d = ctx.drv
     d.extra_env.setdefault('TSAN_OPTIONS', 'halt_on_error=0 exitcode=0 report_signal_unsafe=0 history_size=5')
+    # ICU takes its default locale from the environment; in the POSIX locale its collation is code point order and case-order has no effect
+    d.extra_env.setdefault('LC_ALL', 'en_US.UTF-8')
     before = len(d.stderr_text()) if d.proc is not None else 0
     r = d.call('threads', [('res', 'd2.xml\0' + D2)], xsl=xsl.encode('utf-8'), xml=case['xml'].encode('utf-8'), srcform=case['srcform'],
                nthreads=case['nthreads'], iters=case['iters'], delay=','.join(str(x) for x in case['delays']))
